@@ -1,5 +1,5 @@
 """C08 - batch results are complete and failed items leave no trace."""
-from .. import common, engcheck as E, absmap as A
+from .. import common, engcheck as E, absmap as A, engdrv as D
 
 ONLY = {"C08"}
 
@@ -24,6 +24,7 @@ def check(run, tier):
     traces += attr_then_commit(run, quick)
     traces += placeholder_batches(run, quick)
     traces += over_connections(run, quick)
+    refused_for_size(run)
     E.judge(run, traces, only=ONLY, name="c08")
     E.summarise(run, traces)
     for t in traces:
@@ -251,6 +252,50 @@ def _conn_history(args):
         return tr
     finally:
         drv.close()
+
+
+def refused_for_size(run):
+    """Whatever a client is told 'failed' has not happened - also when the failure is 'Response Too Large': state-changing
+    requests carrying a Maximum Response Size smaller than their answer, sent through a real session; the store is compared
+    before and after."""
+    from .. import sessdrv as S, absmap as A
+    drv = D.EngineDriver(intern=E.new_interner())
+    cert = S.make_cert(1, "client", cn="alice")
+    sym = {"otype": "SymmetricKey", "attrs": [{"name": "Cryptographic Algorithm", "v": "AES"}, {"name": "Cryptographic Length", "v": 128},
+                                              {"name": "Cryptographic Usage Mask", "v": ["ENCRYPT"]}, {"name": "Name", "idx": 0, "v": "n1"},
+                                              {"name": "Object Group", "idx": 0, "v": "og1"}]}
+    n = 0
+    try:
+        drv.request(D.one("Create", sym))
+        snap = drv.db + ".size"
+        drv.snapshot(snap)
+        cells = [((1, 2), "Create", sym), ((1, 2), "Activate", {"uid": 1}), ((1, 2), "Destroy", {"uid": 1}),
+                 ((1, 2), "Revoke", {"uid": 1, "code": "KEY_COMPROMISE"}),
+                 ((1, 4), "ModifyAttribute", {"uid": 1, "attr": {"name": "Name", "idx": 0, "v": "x" * 300}}),
+                 ((1, 2), "DeleteAttribute", {"uid": 1, "name": "Object Group", "idx": 0}),
+                 ((2, 0), "SetAttribute", {"uid": 1, "new": {"name": "Sensitive", "v": True}})]
+        for ver, op, p in cells:
+            for limit in (8, 64, 0):
+                drv.load_snapshot(snap)
+                before = drv.state()
+                req = D.one(op, dict(p), ver=ver)
+                req["maxsize"] = limit
+                data = A.encode(A.build_request(req, drv.intern, now=int(D.CLOCK.now)), A.KV(tuple(ver)))
+                conn = S.FakeConn(data, cert=cert)
+                S.run_session(drv.engine, conn)
+                after = drv.state()
+                n += 1
+                told = A.abs_response(A.decode_response(conn.sent[0]), drv.intern)["items"] if conn.sent else []
+                reason = told[0]["reason"] if told else "no answer"
+                run.case(("size-limited", op, limit, reason, before == after))
+                if told and told[0]["status"] != "Success" and before != after:
+                    run.violation("C08_refused_but_applied", {"op": op, "reason": reason, "ver": ver[0] * 10 + ver[1]},
+                                  {"request": req, "maximum_response_size": limit, "answer": told[0],
+                                   "objects_before": len(before["objs"]), "objects_after": len(after["objs"])})
+    finally:
+        drv.close()
+    run.traces += n
+    run.extra["size_limited_state_changing_requests"] = n
 
 
 def over_connections(run, quick):
